@@ -10,6 +10,7 @@ package main
 import (
 	"encoding/json"
 	"fmt"
+	"go/types"
 	"math/big"
 	"os"
 	"os/exec"
@@ -159,6 +160,13 @@ func replayObligation(w *World, o *Obligation, repo string) *ReplayResult {
 		what = fmt.Sprintf("%s with previous timestamp %s, increment %s, clock %s, pool of %s", o.Func, last, incr, now, pool)
 		m["$now"] = now
 		m["$pool"] = pool
+	case "(*Context).isAntiMEVExtensionEnabled":
+		eh := mval(m, "Config.AntiMEVExtensionEnablingHeight", "-1")
+		if b, ok := new(big.Int).SetString(eh, 10); !ok || b.BitLen() > 62 {
+			return nil
+		}
+		body = fmt.Sprintf("c := govcContext(%s, %s, 0, 1, 0, 0, 0, false)\n\tc.Config.AntiMEVExtensionEnablingHeight = %s\n%s\tr := c.isAntiMEVExtensionEnabled()\n\tfmt.Printf(\"GOVC-RESULT result=%%v\\n\", r)", n, height, eh, contextFieldAssignments(w, m))
+		what = fmt.Sprintf("isAntiMEVExtensionEnabled() at height %s with enabling height %s (other scalar fields of the context as in the model)", height, eh)
 	default:
 		return nil
 	}
@@ -212,6 +220,46 @@ func replayObligation(w *World, o *Obligation, repo string) *ReplayResult {
 	return res
 }
 
+// contextFieldAssignments: Go statements that give every boolean or integer field of Context named in the model (also
+// fields a change added) the model's value; fields of other types, and values outside the field's type, are skipped.
+func contextFieldAssignments(w *World, m map[string]string) string {
+	var sb strings.Builder
+	pi := w.Pkgs["github.com/nspcc-dev/dbft"]
+	if pi == nil {
+		return ""
+	}
+	obj := pi.P.Types.Scope().Lookup("Context")
+	if obj == nil {
+		return ""
+	}
+	st, ok := obj.Type().Underlying().(*types.Struct)
+	if !ok {
+		return ""
+	}
+	for i := 0; i < st.NumFields(); i++ {
+		f := st.Field(i)
+		v, ok := m["Context."+f.Name()]
+		if !ok || f.Name() == "BlockIndex" || f.Name() == "ViewNumber" {
+			continue
+		}
+		b, isBasic := f.Type().Underlying().(*types.Basic)
+		if !isBasic {
+			continue
+		}
+		switch {
+		case b.Info()&types.IsBoolean != 0 && (v == "true" || v == "false"):
+			fmt.Fprintf(&sb, "\tc.%s = %s\n", f.Name(), v)
+		case b.Info()&types.IsInteger != 0:
+			lo, hi, okr := intRange(f.Type())
+			bv, okv := new(big.Int).SetString(v, 10)
+			if okr && okv && bv.Cmp(lo) >= 0 && bv.Cmp(hi) <= 0 {
+				fmt.Fprintf(&sb, "\tc.%s = %s\n", f.Name(), v)
+			}
+		}
+	}
+	return sb.String()
+}
+
 // checkObserved evaluates the failed clause on the observed values (exact integer arithmetic).
 func checkObserved(o *Obligation, m, obs map[string]string) bool {
 	bi := func(s string) *big.Int {
@@ -240,6 +288,11 @@ func checkObserved(o *Obligation, m, obs map[string]string) bool {
 			return r.Sign() < 0 || r.Cmp(n) >= 0
 		}
 		return r.Cmp(want) != 0
+	case "(*Context).isAntiMEVExtensionEnabled":
+		eh := bi(mval(m, "Config.AntiMEVExtensionEnablingHeight", "-1"))
+		h := bi(mval(m, "Context.BlockIndex", "0"))
+		want := eh.Sign() >= 0 && eh.Cmp(h) <= 0
+		return (obs["result"] == "true") != want
 	case "(*Context).getTimestamp", "(*Context).Fill":
 		incr := bi(mval(m, "Config.TimestampIncrement", "1"))
 		last := bi(mval(m, "Context.lastBlockTimestamp", "0"))
